@@ -55,6 +55,12 @@ Definition run_case (c : case) : Z :=
                                       && all2 Qeq_bool (r_bk r) gb) runs
                     && strictly_sorted (map dx sorted) in
           if negb wf then 1%Z else
+          (* fewer good points than the order: iterfit gives up before any fit (Iter.iterfit_guarded_with); what is claimed
+             of the result is the mask -- (invvar > 0) in the caller's order.  With nord or more good points (also EXACTLY
+             nord) the documented procedure applies. *)
+          if (ngood (initial_mask sorted) <? k)%nat then
+            (if forallb (fun r => all2 Bool.eqb (r_mask r) (unsort false (r_perm r) (initial_mask sorted))) runs then 0%Z else 2%Z)
+          else
           match iter_loop fit_fast (S maxiter) gb k lower upper sorted (initial_mask sorted) with
           | None => 4%Z
           | Some (c0, mw) =>
